@@ -38,6 +38,20 @@ def guard_active(model, case):
         mc = case.trainer_kwargs.get('max_concentration', 500)
         if np.any(c <= 1e-3) or np.any(c >= 0.999 * mc):
             return True
+    if kind in ('gmm', 'gcacgmm'):
+        # a (nearly) collapsed component: the density is unbounded there and
+        # the data are not in general position for that class any more
+        cov = np.asarray(model.gaussian.covariance)
+        ct = case.opts.get('covariance_type', 'full' if kind == 'gmm' else 'spherical')
+        if ct == 'full':
+            ev = np.linalg.eigvalsh((cov + np.swapaxes(cov, -1, -2)) / 2)
+            if np.any(ev.min(axis=-1) < 1e-8 * ev.max(axis=-1)):
+                return True
+        elif ct == 'diagonal':
+            if np.any(cov.min(axis=-1) < 1e-8 * cov.max(axis=-1)):
+                return True
+        if np.any(cov <= 0) and ct != 'full':
+            return True
     w = np.asarray(model.weight)
     if np.any(w < 1e-12):
         return True
@@ -95,7 +109,9 @@ def _draw_tied(d, kind, max_iter):
     else:
         rate = np.sort(rng.uniform(0.15, 1.0, size=(F, 1)), axis=0)
         s = (rng.uniform(size=(F, case.N)) < rate).astype(float)
-        s[:, :2 * case.K] = 1.0
+        # general position also for the selected observations: at least
+        # 2*K*D of them in every slice
+        s[:, :2 * case.K * case.D] = 1.0
     case.opts = dict(saliency=s,
                      weight_constant_axis=d.choice([(-3,), (-3, -1), -3]))
     if kind == 'gmm':
